@@ -385,7 +385,7 @@ class Polynomial:
             self.coefficients[None, ...] * polynomials, axis=tuple(np.array(axes) + 1)
         )
         if singlePoint:
-            return float(result[0])
+            return float(result[0]) if np.ndim(result[0]) == 0 else np.array(result[0])
         return np.array(result)
 
     def cardinal(
